@@ -174,6 +174,27 @@ class C15(Prop):
             rm = "b" if (p["k"] == "y") != (rng.random() < 0.1) else "t"
             out.append({"stream": "rt", "tag": "rnd:rt:" + p["k"] + (":wild" if wild else ""),
                         "input": {"disk": disk, "p": p, "mode": mode, "enc": enc, "eol": eol, "rm": rm}})
+        # --- large files: a separator straddling every power-of-two offset from 2**9 to 2**17 (block boundaries of
+        #     any chunked reader); too large for the in-Coq evaluation, so these go to the oracle only ---------------
+        big = [("\n\r", "s"), ("<EOL>", "s"), ("||", "s"), ("\r\n", "l"), ("\n", "s"), ("\r\n", "s")]
+        for eol, kind in (big if quick else big * 4):
+            lines, off = [], 0
+            for kexp in range(9, 18):
+                b = 1 << kexp
+                while True:
+                    ln = rng.randint(0, 9)
+                    if off + ln + len(eol) >= b - 1:
+                        ln = b - 1 - off            # the separator after this line starts one byte before the boundary
+                        lines.append("".join(rng.choice("abcXYZ 019") for _ in range(ln)))
+                        off += ln + len(eol)
+                        break
+                    lines.append("".join(rng.choice("abcXYZ 019") for _ in range(ln)))
+                    off += ln + len(eol)
+            lines.append("tail")
+            pl = {"k": "s", "v": "\n".join(lines)} if kind == "s" else {"k": "l", "v": [["s", x] for x in lines]}
+            out.append({"stream": "rt", "tag": "big:rt:" + kind,
+                        "input": {"disk": None, "p": pl, "mode": rng.choice(["w", "wt", "wb"]), "enc": "utf-8",
+                                  "eol": eol, "rm": "t"}})
         # --- save alone, including ill-formed mode strings and unencodable EOLs ---------------
         for _ in range(400 if quick else 6000):
             enc = rng.choice(ENCODINGS)
@@ -190,7 +211,7 @@ class C15(Prop):
             if k < 0.05:
                 disk = None
             elif k < 0.5:
-                t = self.rand_text(rng, ALPHA + ["\r", "\r\n", "\ufeff", "||", "<EOL>"], 10)
+                t = self.rand_text(rng, ALPHA + ["\r", "\r\n", "\ufeff", "||", "<EOL>", "\x0b", "\x0c", "\x1c", "\x85"], 10)
                 disk = b2s(t.encode(enc)) if encodable(t, enc) else b2s(t.encode("utf-8"))
             else:
                 disk = "".join(chr(rng.choice(balpha)) for _ in range(rng.randint(0, 10)))
@@ -395,6 +416,8 @@ class C15(Prop):
 
     def coq_input(self, case):
         i, st = case["input"], case["stream"]
+        if case.get("tag", "").startswith("big:"):
+            raise L.Unrepresentable("large file: oracle only")
         cn = "%d%%N" % ENCODINGS.index(i["enc"])
         if st == "enc":
             return "(%s, %s)" % (cn, L.pstr(i["text"]))
